@@ -324,3 +324,121 @@ theorem rowsBits_length (rows : Rows) : (rowsBits rows).length = ((rowsWidths ro
   | cons r rs ih => simp [rowsBits, rowsWidths] at ih ⊢; omega
 
 end Schc
+
+namespace Schc
+open Bits Spec
+
+theorem data_payload_slice (tsn sid ssn ppid : Nat) (user : Bits) :
+    pairs (parseFixed [(Gen.SCTPF.CHUNK_DATA_PAYLOAD, 96, none, 0)] ⟨rowsBits (dataRows tsn sid ssn ppid) ++ user, .left⟩)
+      = leftPairs [("SCTP:Data Payload", user)] := by
+  have hlen : (rowsBits (dataRows tsn sid ssn ppid)).length = 96 := by rw [rowsBits_length]; rfl
+  simp only [parseFixed, List.map_cons, List.map_nil, pairs, leftPairs, Option.getD_none]
+  have hs : (⟨rowsBits (dataRows tsn sid ssn ppid) ++ user, .left⟩ : ABuf).slice 96 (⟨rowsBits (dataRows tsn sid ssn ppid) ++ user, .left⟩ : ABuf).length
+      = ⟨user, .left⟩ := by
+    simp only [ABuf.slice, ABuf.length]
+    have := slice_mid (rowsBits (dataRows tsn sid ssn ppid)) user [] 96 ((rowsBits (dataRows tsn sid ssn ppid) ++ user).length) hlen.symm (by simp [hlen])
+    rw [List.append_nil] at this
+    rw [this]
+  rw [hs]; rfl
+
+/-- the per-type chunk value parsers on RFC-encoded values -/
+theorem sctpChunkValue_encoded (v : ChunkValue) (t : Nat) (hfit : v.fitsType t) (hwf : v.Wf) (hne : v.wire ≠ [])
+    (fuel : Nat) (hf : paramCount v ≤ fuel) :
+    ∃ cf, sctpChunkValue fuel t ⟨v.wire, .left⟩ = .ok cf ∧ pairs cf = leftPairs v.fields := by
+  unfold sctpChunkValue
+  simp only [ct_DATA, ct_INIT, ct_INIT_ACK, ct_SACK, ct_HEARTBEAT, ct_HEARTBEAT_ACK, ct_ABORT, ct_SHUTDOWN, ct_SHUTDOWN_ACK, ct_ERROR,
+    ct_COOKIE_ECHO, ct_COOKIE_ACK, ct_SHUTDOWN_COMPLETE]
+  cases v with
+  | data tsn sid ssn ppid user =>
+    simp only [ChunkValue.fitsType] at hfit; subst hfit
+    simp only [if_true, pure, Except.pure, ChunkValue.wire, ChunkValue.fields]
+    refine ⟨_, rfl, ?_⟩
+    have hl : Gen.sctpDataLayout = Spec.layoutFrom 0 (rowsWidths (dataRows tsn sid ssn ppid)) ++ [(Gen.SCTPF.CHUNK_DATA_PAYLOAD, 96, none, 0)] := rfl
+    rw [hl, parseFixed_append, pairs_append, leftPairs_append,
+      fixed_rows (Spec.layoutFrom 0 (rowsWidths (dataRows tsn sid ssn ppid))) (dataRows tsn sid ssn ppid) rfl user, data_payload_slice]
+  | init ack tag rwnd os is tsn ps =>
+    simp only [ChunkValue.Wf] at hwf
+    simp only [paramCount] at hf
+    have hlen : ∀ a, (rowsBits (initRows a tag rwnd os is tsn)).length = 128 := by
+      intro a; rw [rowsBits_length]; cases a <;> rfl
+    obtain ⟨pf, p1, p2⟩ := sctpParameters_encoded ps hwf fuel hf
+    cases ack
+    · simp only [ChunkValue.fitsType, Bool.false_eq_true, if_false] at hfit; subst hfit
+      simp only [show ¬ ((1 : Nat) = 0) by decide, if_false, if_true, ChunkValue.wire, ChunkValue.fields, bind, Except.bind]
+      rw [from_after_rows _ _ 128 (hlen false).symm, p1]
+      refine ⟨_, rfl, ?_⟩
+      rw [pairs_append, leftPairs_append, p2, fixed_rows Gen.sctpInitLayout (initRows false tag rwnd os is tsn) rfl _]
+    · simp only [ChunkValue.fitsType, if_true] at hfit; subst hfit
+      simp only [show ¬ ((2 : Nat) = 0) by decide, show ¬ ((2 : Nat) = 1) by decide, if_false, if_true, ChunkValue.wire, ChunkValue.fields, bind, Except.bind]
+      rw [from_after_rows _ _ 128 (hlen true).symm, p1]
+      refine ⟨_, rfl, ?_⟩
+      rw [pairs_append, leftPairs_append, p2, fixed_rows Gen.sctpInitAckLayout (initRows true tag rwnd os is tsn) rfl _]
+  | sack cum rwnd gaps dups =>
+    simp only [ChunkValue.fitsType] at hfit; subst hfit
+    obtain ⟨hg, hd⟩ := hwf
+    simp only [show ¬ ((3 : Nat) = 0) by decide, show ¬ ((3 : Nat) = 1) by decide, show ¬ ((3 : Nat) = 2) by decide, if_false, if_true,
+      ChunkValue.wire, ChunkValue.fields, pure, Except.pure]
+    refine ⟨_, rfl, ?_⟩
+    generalize hcv : (⟨rowsBits (sackRows cum rwnd gaps.length dups.length) ++ (rowsBits (gapRows gaps) ++ rowsBits (dupRows dups)), .left⟩ : ABuf) = cv
+    have hfixed : pairs (parseFixed Gen.sctpSackLayout cv) = leftPairs (rowsFields (sackRows cum rwnd gaps.length dups.length)) := by
+      rw [← hcv]; exact fixed_rows _ _ rfl _
+    have hng : (fieldValue (parseFixed Gen.sctpSackLayout cv) Gen.SCTPF.CHUNK_SACK_NUMBER_GAP_ACK_BLOCKS).value = gaps.length := by
+      rw [fieldValue_pairs, hfixed]
+      show (⟨Bits.ofNat 16 gaps.length, .left⟩ : ABuf).value = _
+      exact value_ofNat 16 _ _ hg
+    have hnd : (fieldValue (parseFixed Gen.sctpSackLayout cv) Gen.SCTPF.CHUNK_SACK_NUMBER_DUPLICATE_TSNS).value = dups.length := by
+      rw [fieldValue_pairs, hfixed]
+      show (⟨Bits.ofNat 16 dups.length, .left⟩ : ABuf).value = _
+      exact value_ofNat 16 _ _ hd
+    have hlen : (rowsBits (sackRows cum rwnd gaps.length dups.length)).length = 96 := by rw [rowsBits_length]; rfl
+    have hfrom : cv.from_ 96 = ⟨rowsBits (gapRows gaps) ++ rowsBits (dupRows dups), .left⟩ := by
+      rw [← hcv]; exact from_after_rows _ _ 96 hlen.symm
+    rw [hng, hnd, hfrom]
+    obtain ⟨b1, b2⟩ := sackBlocks_encoded gaps (rowsBits (dupRows dups))
+    have hd2 := sackDups_encoded dups []
+    rw [List.append_nil] at hd2
+    generalize hsb : sackBlocks gaps.length ⟨rowsBits (gapRows gaps) ++ rowsBits (dupRows dups), .left⟩ = sb at *
+    obtain ⟨gfs, r'⟩ := sb
+    simp only at b1 b2 ⊢
+    subst b1
+    rw [pairs_append, pairs_append, hfixed, b2, hd2, leftPairs_append, leftPairs_append, List.append_assoc]
+  | params ps =>
+    simp only [ChunkValue.Wf] at hwf
+    simp only [paramCount] at hf
+    obtain ⟨pf, p1, p2⟩ := sctpParameters_encoded ps hwf fuel hf
+    have hc : t = 4 ∨ t = 5 ∨ t = 6 ∨ t = 9 := hfit
+    have n0 : ¬ t = 0 := by omega
+    have n1 : ¬ t = 1 := by omega
+    have n2 : ¬ t = 2 := by omega
+    have n3 : ¬ t = 3 := by omega
+    simp only [n0, n1, n2, n3, if_false, hc, if_true, ChunkValue.wire, ChunkValue.fields]
+    exact ⟨pf, p1, p2⟩
+  | shutdown cum =>
+    simp only [ChunkValue.fitsType] at hfit; subst hfit
+    simp only [show ¬ ((7 : Nat) = 0) by decide, show ¬ ((7 : Nat) = 1) by decide, show ¬ ((7 : Nat) = 2) by decide, show ¬ ((7 : Nat) = 3) by decide,
+      show ¬ ((7 : Nat) = 4 ∨ (7 : Nat) = 5 ∨ (7 : Nat) = 6 ∨ (7 : Nat) = 9) by decide, if_false, if_true, ChunkValue.wire, ChunkValue.fields, pure, Except.pure]
+    refine ⟨_, rfl, ?_⟩
+    have := fixed_rows Gen.sctpShutdownLayout [("SCTP:Shutdown Cumulative TSN", 32, cum)] rfl []
+    simpa [rowsBits, rowsFields, leftPairs] using this
+  | none => exact absurd rfl hne
+  | cookie c =>
+    simp only [ChunkValue.fitsType] at hfit; subst hfit
+    simp only [show ¬ ((10 : Nat) = 0) by decide, show ¬ ((10 : Nat) = 1) by decide, show ¬ ((10 : Nat) = 2) by decide, show ¬ ((10 : Nat) = 3) by decide,
+      show ¬ ((10 : Nat) = 4 ∨ (10 : Nat) = 5 ∨ (10 : Nat) = 6 ∨ (10 : Nat) = 9) by decide, show ¬ ((10 : Nat) = 7) by decide,
+      show ¬ ((10 : Nat) = 8 ∨ (10 : Nat) = 11 ∨ (10 : Nat) = 14) by decide, if_false, if_true, ChunkValue.wire, ChunkValue.fields, pure, Except.pure]
+    exact ⟨_, rfl, rfl⟩
+  | other w =>
+    have hc : t = 12 ∨ t = 13 ∨ 15 ≤ t := hfit
+    have n0 : ¬ t = 0 := by omega
+    have n1 : ¬ t = 1 := by omega
+    have n2 : ¬ t = 2 := by omega
+    have n3 : ¬ t = 3 := by omega
+    have n4 : ¬ (t = 4 ∨ t = 5 ∨ t = 6 ∨ t = 9) := by omega
+    have n7 : ¬ t = 7 := by omega
+    have n8 : ¬ (t = 8 ∨ t = 11 ∨ t = 14) := by omega
+    have n10 : ¬ t = 10 := by omega
+    have hw : w ≠ [] := hne
+    simp only [n0, n1, n2, n3, n4, n7, n8, n10, if_false, ChunkValue.wire, ChunkValue.fields, pure, Except.pure, hw, ne_eq, not_false_eq_true, if_true]
+    exact ⟨_, rfl, rfl⟩
+
+end Schc
